@@ -352,6 +352,45 @@ func VerifC06Flatten() {
 	}
 	// rule R6: flattened keys do not collide with the parent's own keys
 	verif.Assume(prefix+"street" != "id" && prefix+"zipCode" != "id")
+	// the child may hold a member that is not a plain singular scalar: its cardinality and
+	// nullability travel with it when it is promoted
+	extra := verif.Choice("child.extra", 4)
+	switch extra {
+	case 1:
+		c06Add(w.child, &verif.FieldDesc{FName: "lines", FJSON: "lines", FKind: protoreflect.StringKind, FList: true})
+	case 2:
+		entry := &protogen.Message{Desc: &verif.MessageDesc{MName: "LabelsEntry", MFullName: "acme.v1.Child.LabelsEntry", MMapEntry: true, MOpts: &descriptorpb.MessageOptions{}},
+			GoIdent: protogen.GoIdent{GoName: "Child_LabelsEntry", GoImportPath: verif.ImportPath}}
+		c06Add(entry, &verif.FieldDesc{FName: "key", FJSON: "key", FKind: protoreflect.StringKind})
+		c06Add(entry, &verif.FieldDesc{FName: "value", FJSON: "value", FKind: protoreflect.StringKind})
+		lf := c06Add(w.child, &verif.FieldDesc{FName: "labels", FJSON: "labels", FKind: protoreflect.MessageKind, FMap: true, FMsg: entry.Desc})
+		lf.Message = entry
+	case 3:
+		no := &descriptorpb.FieldOptions{}
+		verif.SetExt(no, http.E_Nullable, true)
+		c06Add(w.child, &verif.FieldDesc{FName: "nick", FJSON: "nick", FKind: protoreflect.StringKind, FOptional: true, FOpts: no})
+	}
+	verif.Assume(prefix+"lines" != "id" && prefix+"labels" != "id" && prefix+"nick" != "id")
+	extraValue := func(doc *c06V, pfx, name string) {
+		if extra == 0 || !verif.Bool(name+".child.extra.set") {
+			return
+		}
+		switch extra {
+		case 1:
+			doc.set(pfx+"lines", &c06V{cat: c06Arr, elems: []*c06V{{cat: c06Str}}})
+		case 2:
+			o := c06Object()
+			o.set(verif.StringIn(name+".child.labels.key", verif.L(2), "a-z"), &c06V{cat: c06Str})
+			doc.set(pfx+"labels", o)
+		case 3:
+			if verif.Bool(name + ".child.nick.null") {
+				doc.set(pfx+"nick", &c06V{cat: c06Null})
+			} else {
+				doc.set(pfx+"nick", &c06V{cat: c06Str})
+			}
+		}
+		verif.Reach("C06/flatten/child-member-with-cardinality")
+	}
 	d := &verif.FieldDesc{FName: "addr", FJSON: "addr", FKind: protoreflect.MessageKind, FOpts: opts, FMsg: w.child.Desc}
 	f := c06Add(msg, d)
 	f.Message = w.child
@@ -378,12 +417,14 @@ func VerifC06Flatten() {
 		for i, k := range c.keys {
 			doc.set(prefix+k, c.vals[i])
 		}
+		extraValue(doc, prefix, "addr")
 	}
 	if withSecond && verif.Bool("billing.set") {
 		c := c06ChildValue(w, "billing")
 		for i, k := range c.keys {
 			doc.set("b_"+k, c.vals[i])
 		}
+		extraValue(doc, "b_", "billing")
 	}
 	verif.Assert("C06/flatten/populated-form-validates", e.valid(root, doc, 0))
 	verif.Assert("C06/flatten/every-wire-key-is-described", e.allDescribed(root, doc))
